@@ -284,6 +284,8 @@ def parse_strace(text):
         m2 = re.match(r"^<\.\.\. (\w+) resumed>(.*)$", rest)
         if m2:
             rest = pending.pop(pid, m2.group(1) + "(") + m2.group(2)
+        if re.match(r"^\?\?\?\(\)\s+=\s+\?", rest):
+            continue        # strace's placeholder for a task that exited before its syscall could be decoded (no syscall was made)
         m3 = re.match(r"^(\w+)\((.*)\)\s+=\s+(-?\d+|\?)(?:\s+(E\w+))?", rest)
         if not m3:
             raise RuntimeError("cannot parse strace line: " + line[:200])
